@@ -733,8 +733,5 @@ package io
 //@   modifies buf[*]
 //@   loop 1 invariant [shape] 0 <= off && off <= 20 && 0 <= i && i < pow10(off) && i <= i0
 //@   loop 1 invariant [folds_to_the_number] dfold(elems(buf), off(buf) + off, off(buf) + 20, i) == i0
-//@   loop 1 invariant [digits_only] forall(j, off(buf) + off, off(buf) + 20, isdigit(mem(buf, j)))
 //@   ensures [folds_to_the_number] 0 <= off && off <= 20 && dfold(elems(buf), off(buf) + off, off(buf) + 20, 0) == i0
-//@   ensures [digits_only] forall(j, off(buf) + off, off(buf) + 20, isdigit(mem(buf, j)))
-//@   ensures [no_leading_zero] i0 > 0 ==> off < 20 && mem(buf, off(buf) + off) != 48
 //@   ensures [zero_writes_nothing] i0 == 0 ==> off == 20
